@@ -93,6 +93,51 @@ def run(ctx):
         recs += hist.run_histories(ctx, res, 40 if thorough else 10, 4, store_kinds=("dbfs", "memory", "local", "dbfs"), on_record=on_record, at_step=at_step,
                                    edit_kinds=["body", "revert", "body", "var", "none"], allow="shared")
         recs += hist.run_histories(ctx, res, 30 if thorough else 6, 5, store_kinds=("dbfs",), on_record=on_record, at_step=at_step)
+        # kept results that are mutable objects which the caller goes on modifying after the keep returned (sorting a list in place,
+        # adding a key): the path serves what the keep RETURNED (serialising stores; the memory store holds the live object)
+        import shutil
+        import sys
+        import tempfile
+        real = pipeline.real_runner()
+        for mi, store_kind in enumerate(["local", "local_lru", "dbfs"] if thorough else ["local", "local_lru"]):
+            base = tempfile.mkdtemp(prefix="ddsverif_c04m_")
+            pkg = "c4m_%d_%d" % (os.getpid(), mi)
+            try:
+                real.reset_process_state()
+                real.set_store(store_kind, os.path.join(base, "si"), os.path.join(base, "sd"))
+                src = ("import dds\nfrom ddsverif_rt import log\n\n"
+                       "def make_rows():\n    log('make_rows')\n    return [3, 1, 2]\n\n"
+                       "def make_tags():\n    log('make_tags')\n    return {'b': 1}\n\n"
+                       "def f1():\n    rows = dds.keep('/m/rows', make_rows)\n    tags = dds.keep('/m/meta/tags', make_tags)\n"
+                       "    snap = (list(rows), dict(tags))\n    rows.sort()\n    rows.append(40)\n    tags['z'] = 9\n    return repr(snap)\n\n"
+                       "def f0():\n    return %s\n" % ("dds.keep('/m/top', f1)" if mi % 2 else "f1()"))
+                os.makedirs(os.path.join(base, pkg), exist_ok=True)
+                open(os.path.join(base, pkg, "__init__.py"), "w").close()
+                with open(os.path.join(base, pkg, "main.py"), "w") as fh:
+                    fh.write(src)
+                real.load_world(base, pkg + ".main", None, accept=pkg)
+                for attempt in (1, 2):
+                    r = real.run({"kind": "eval", "fun": "f0"})
+                    res.evaluations += 1
+                    res.count("mutated_after_keep")
+                    res.nontrivial("mutated after keep %s %d" % (store_kind, attempt))
+                    bad = None
+                    if r["error"] is not None or r["value"] != repr(([3, 1, 2], {"b": 1})):
+                        bad = "evaluation %d returned %r (error %s); the keeps return [3, 1, 2] and {'b': 1}" % (attempt, r["value"], r["error"])
+                    else:
+                        for pth, want in (("/m/rows", [3, 1, 2]), ("/m/meta/tags", {"b": 1})):
+                            got = real.load_path(pth)
+                            if got["error"] is not None or got["value"] != want:
+                                bad = "path %s serves %s after evaluation %d; its keep returned %r (the caller modified the object afterwards)" % (pth, got, attempt, want)
+                                break
+                    if bad:
+                        res.violations.append({"what": bad, "input": {"source": src, "store": store_kind}, "kf": None})
+                        break
+            finally:
+                shutil.rmtree(base, ignore_errors=True)
+                for k in list(sys.modules):
+                    if k.split(".")[0] == pkg:
+                        del sys.modules[k]
     finally:
         if fresh[0] is not None:
             fresh[0].close()
